@@ -72,6 +72,13 @@ def sweep_scenarios(quick, seed):
     # an eviction run parked in a deletion handler while every other key is rewritten (C04)
     for k, mx in enumerate((5, 0, 1, 12)):
         out.append({"ttl": 0, "jump": 0, "later": 0, "op": "ev.rewrite", "sized": k % 2, "syncexec": 1, "warm": 0, "max": mx})
+    # a key's delete event applied before its add event (the inserting writer parked between its table computation and the publication of the
+    # event): the policy's running totals must not turn a cache that is far below its maximum into one that evicts (C06: Overflow without overflow)
+    k = 0
+    for op in ("ord.set", "ord.compute", "ord.setifabsent"):
+        for sized in (0, 1):
+            k += 1
+            out.append({"ttl": 0, "jump": 0, "later": 0, "op": op, "sized": sized, "syncexec": k % 2, "warm": 3 + k, "max": 100})
     # stale-node eviction while a load of the key is in flight (C08)
     for op in ("ld.staleevict.inv", "ld.staleevict.set"):
         out.append({"ttl": 0, "jump": 0, "later": 0, "op": op, "sized": 1, "syncexec": 0, "warm": 0, "max": 0})
@@ -104,7 +111,7 @@ def sweep_scenarios(quick, seed):
 
 
 def sc_is_foreign(sc):
-    return sc["op"].startswith(("ld.", "persist.", "rb.", "ev."))
+    return sc["op"].startswith(("ld.", "persist.", "rb.", "ev.", "ord."))
 
 
 def expire_race_cfg(readers, nreads, ttl, maxclock, nsweeps, sized, resurrect, writer="", reread=False):
@@ -161,7 +168,7 @@ def read_race_half(prop, tier, mc_out=None):
     runs), judged by SweepHist.tla; returns (scenarios, [(pred, detail, path)] owned by `prop`, broken)."""
     seed = vlib.seed()
     if prop == "C06":
-        scs = [sc for sc in sweep_scenarios(False, seed) if sc["op"].startswith(("gate.", "sia.")) and sc["op"] != "gate.size"]
+        scs = [sc for sc in sweep_scenarios(False, seed) if sc["op"].startswith(("gate.", "sia.", "ord.")) and sc["op"] != "gate.size"]
     elif prop == "C05":
         scs = [sc for sc in sweep_scenarios(False, seed) if sc["op"].startswith("sia.") or sc["op"] == "gate.size"]
     elif prop == "C08":
